@@ -57,6 +57,8 @@ type ScanOut struct {
 	Metric   bool      `json:"metric"`
 	UpIncl   bool      `json:"up_incl"`
 	NoWindow bool      `json:"no_window"`
+	Lookback int64     `json:"lookback_ns"`
+	Instant  bool      `json:"instant"`
 	TsLo     *BoundOut `json:"ts_lo"`
 	TsHi     *BoundOut `json:"ts_hi"`
 	DLo      *BoundOut `json:"d_lo"`
@@ -184,7 +186,7 @@ func runExtract(out, tier string, clusters []string, only string) {
 					for ci, c := range st.Classes {
 						info := tablesInfo[c.Table]
 						so := ScanOut{ScanKey: ScanKey{ep.Name, cl, si, ci}, Table: c.Table, Kind: info.Kind, WRule: info.WRule, API: ep.API, Signal: ep.Signal,
-							Metric: ep.Metric, UpIncl: ep.UpIncl, NoWindow: ep.NoWindow, HasType: c.HasTy, Type: c.Type, Extra: c.Extra, Unknown: c.Unk,
+							Metric: ep.Metric, UpIncl: ep.UpIncl, NoWindow: ep.NoWindow, Lookback: int64(ep.Lookback), Instant: ep.Instant, HasType: c.HasTy, Type: c.Type, Extra: c.Extra, Unknown: c.Unk,
 							Phase: st.Scans[ci].Phase, IsJoin: c.IsJoin, SQL: st.SQL, Windows: 1}
 						mergeBound(&so.TsLo, c.TsLo, true, "", &so)
 						mergeBound(&so.TsHi, c.TsHi, true, "", &so)
